@@ -97,6 +97,25 @@ def WriteInteger(output: BinaryIO, i: int):
     output.write(PackInteger(i))
 
 
+def PackSignedInteger(v):
+    """Signed LEB128, as required for the immediates of ``i32.const``."""
+    output = []
+    while True:
+        b = v & 0x7F
+        v >>= 7
+        # Done once the remaining bits are all copies of the sign bit of
+        # the group we just produced
+        if (v == 0 and b < 0x40) or (v == -1 and b >= 0x40):
+            output.append(b)
+            break
+        output.append(b | 0b1000_0000)
+    return bytes(output)
+
+
+def WriteSignedInteger(output: BinaryIO, i: int):
+    output.write(PackSignedInteger(i))
+
+
 def PackFloat(v):
     return struct.pack("<f", v)
 
@@ -370,7 +389,12 @@ class Instruction:
         # TODO Handle non-integer arguments
         if self.__args:
             for arg in self.__args:
-                WriteInteger(output, arg)
+                if self.__opcode == opcodes["i32.const"]:
+                    # The immediate of a constant is a signed integer, all
+                    # other immediates are (unsigned) indices
+                    WriteSignedInteger(output, arg)
+                else:
+                    WriteInteger(output, arg)
 
 
 class Code:
